@@ -51,6 +51,7 @@ def gen_args(rng, large=False):
         return {
             "kw": kw,
             "relative": rng.random() < 0.5,
+            "shared_dir": rng.random() < 0.25,
             "r": rng.choice(RADII[:3] if large else RADII),
             "origin": [rng.choice([0.0, 0.3, -0.7, 1.4, 0.5]) for _ in range(3)],
             "bounds": rng.choice(BOUNDS),
@@ -67,6 +68,7 @@ def gen_args(rng, large=False):
     return {
         "kw": kw,
         "relative": rng.random() < 0.5,
+        "shared_dir": rng.random() < 0.25,
         "r": round(rng.uniform(1.0, 4.5 if large else 12.0), 3),
         "origin": [round(rng.uniform(-1.5, 2.5), 4) for _ in range(3)],
         "bounds": [lo, hi],
@@ -100,6 +102,7 @@ def gen_config(rng, spec):
     if not large and rng.random() < 0.35:
         slow = rng.sample(sorted(O.SLOW_QUERIES), rng.randint(1, 2))
     fault_kinds = [f for f in ("raiser", "wfail", "inject") if rng.random() < 0.5]
+    threads = rng.random() < 0.2  # the crystal is handed between caller threads (one call at a time)
     return {
         "length": length,
         "queries": enabled,
@@ -108,6 +111,7 @@ def gen_config(rng, spec):
         "p_fork": rng.choice([0.0, 0.05, 0.1, 0.2]),
         "p_fault": rng.choice([0.05, 0.1, 0.2]) if fault_kinds else 0.0,
         "fault_kinds": fault_kinds,
+        "threads": threads,
         "large": large,
     }
 
@@ -117,7 +121,7 @@ def _aimed_injection(rng, sim, hi, op):
     the query makes on a throw-away deep copy of the handle first."""
     fn = O.ALL_QUERIES[op][0]
     trial = copy.deepcopy(sim.world[hi])
-    counts = INJECTOR.probe(lambda: fn(trial, sim.A, {"dir": FS.dir("probe")}))
+    counts = INJECTOR.probe(lambda: fn(trial, sim.A, {"dir": FS.dir("probe"), "box": dict(sim.box[hi])}))
     live = sorted(t for t, n in counts.items() if n > 0)
     if not live:
         target = rng.choice(INJECT_TARGETS)
@@ -244,7 +248,10 @@ def random_run(verif_seed, index, stratum="random"):
         if state["audit"] is None:
             if state["n"] < cfg["length"]:
                 state["n"] += 1
-                return choose_step(rng, cfg, fb, sim)
+                st = choose_step(rng, cfg, fb, sim)
+                if cfg["threads"] and (st["op"] in O.ALL_QUERIES or st["op"] in O.MUTATORS):
+                    st["thread"] = rng.choice([0, 1, 1, 2])
+                return st
             state["audit"] = iter(audit_for(rng, cfg, sim))
         return next(state["audit"], None)
 
@@ -306,8 +313,9 @@ def template_run(verif_seed, index, stratum="template"):
     plan = []
     target = 0
     defer = bool(q1 in O.DEFERRABLE and index % 3 == 0)
+    worker = 1 if index % 4 == 1 else 0
     if q1:
-        plan.append({"h": target, "op": q1, "defer": True} if defer else {"h": target, "op": q1})
+        plan.append({"h": target, "op": q1, "defer": True} if defer else {"h": target, "op": q1, "thread": worker})
     state = {"i": 0, "plan": plan, "expanded": False}
 
     def producer(sim, fb):
@@ -323,7 +331,7 @@ def template_run(verif_seed, index, stratum="template"):
             rest = [{"h": target, "op": m} for m in tail]
             if defer:
                 rest.append({"h": target, "op": "inspect"})
-            rest.append({"h": target, "op": q2})
+            rest.append({"h": target, "op": q2, "thread": worker})
             rest += audit_steps(1, rng.sample(FAST_QUERIES, 4 if is_large(spec) else 6))
             state["rest"] = iter(rest)
         return next(state["rest"], None)
@@ -583,7 +591,7 @@ def inject_template_run(verif_seed, index, stratum="inject", nth_override=None):
             state["phase"] = 2
             fn = O.ALL_QUERIES[op][0]
             trial = copy.deepcopy(sim.world[0])
-            n = INJECTOR.probe(lambda: fn(trial, sim.A, {"dir": FS.dir("probe")}))[target]
+            n = INJECTOR.probe(lambda: fn(trial, sim.A, {"dir": FS.dir("probe"), "box": {}}))[target]
             if n == 0:
                 sim.stats["inject_template:seam_not_called"] += 1
                 return None
